@@ -7,6 +7,7 @@ package service
 
 import (
 	gocontext "context"
+	"strconv"
 
 	"github.com/orda-io/orda/client/pkg/context"
 	"github.com/orda-io/orda/client/pkg/model"
@@ -288,4 +289,49 @@ func VF_C12_LockExclusion() {
 	vf.Assert(entered >= 1, "C12 at least one request gets the lock")
 	vf.Assert(otherInside == 1, "C12 a request for a different key is not blocked")
 	vf.Assert(w.lockFreeName("PP:1:"+vfKey) && w.lockFreeName("PP:1:other"), "C12 the locks are free afterwards")
+}
+
+// VF_C12_LockIndependence (C12 "requests for different datatypes neither block nor
+// affect each other"): the mapping from (purpose, collection, key) to a lock
+// must be one lock per name.  A request holds the lock of its own datatype
+// while N requests for other names of the same shape arrive: every one of them
+// gets its lock at once, while all the others are still held.  N is larger than
+// any fixed-size table of lock objects one would reasonably put behind the
+// names (pigeonhole), and the family contains names that differ in one
+// character, in the collection number only and in the purpose only.
+func VF_C12_LockIndependence() {
+	w := vfNewWorld()
+	n := 700
+	if vf.Tier() == 1 {
+		n = 3000
+	}
+	purposes := []string{"PP", "PD", "US"}
+	var held []interface{ Unlock() bool }
+	refused := 0
+	first := ""
+	for i := 0; i < n && refused == 0; i++ { // (a refused TryLock waits for the lease time: stop at the first one)
+		for _, p := range purposes {
+			for num := int32(1); num <= 2 && refused == 0; num++ {
+				name := utils.GetLockName(p, num, "k"+strconv.Itoa(i))
+				l := w.mgr.GetLock(context0(), name)
+				if l.TryLock() {
+					held = append(held, l)
+				} else {
+					refused++
+					if first == "" {
+						first = name
+					}
+				}
+			}
+		}
+	}
+	vf.Reach("all-asked")
+	if refused > 0 {
+		vf.Tag("first-refused", first)
+	}
+	vf.Assert(refused == 0, "C12 a request for a different datatype is never blocked by the locks other requests hold")
+	for _, l := range held {
+		l.Unlock()
+	}
+	vf.Assert(w.lockFreeName(utils.GetLockName("PP", 1, "k0")), "C12 the locks are free afterwards")
 }
